@@ -29,7 +29,12 @@ DocMut ==   \* <<field, op, class>>
     <<"title", "toNumber", "reject">>, <<"title", "delete", "nopanic">>,
     <<"keywords", "toString", "reject">>, <<"keywords", "delete", "nopanic">>,
     <<"boundingBox", "toString", "reject">>, <<"boundingBox", "delete", "nopanic">>, <<"boundingBox", "toObject", "nopanic">>,
-    <<"uri", "toNumber", "reject">>, <<"uri", "delete", "nopanic">>, <<"uri", "badString", "nopanic">> }
+    <<"uri", "toNumber", "reject">>, <<"uri", "delete", "nopanic">>, <<"uri", "badString", "nopanic">>,
+    \* inside the (optional) bounding box
+    <<"boundingBox.crs", "delete", "nopanic">>, <<"boundingBox.crs", "null", "nopanic">>, <<"boundingBox.crs", "toNumber", "reject">>,
+    <<"boundingBox.lowerLeft", "delete", "nopanic">>, <<"boundingBox.lowerLeft", "arrayLong", "nopanic">>,
+    <<"boundingBox.lowerLeft", "arrayShort", "nopanic">>, <<"boundingBox.upperRight", "toString", "reject">>,
+    <<"boundingBox.upperRight", "elemString", "reject">>, <<"boundingBox.orderedAxes", "toNumber", "reject">> }
 TmMut ==
   { <<"id", "delete", "reject">>, <<"id", "toNumber", "reject">>, <<"id", "idAlpha", "reject">>, <<"id", "idFloat", "reject">>,
     <<"cellSize", "delete", "reject">>, <<"cellSize", "toString", "reject">>, <<"cellSize", "zero", "reject">>, <<"cellSize", "negative", "reject">>,
